@@ -24,7 +24,8 @@ def bump (k : String) : List (String × Nat) → List (String × Nat)
   | [] => [(k, 1)]
   | (k', n) :: rest => if k == k' then (k', n + 1) :: rest else (k', n) :: bump k rest
 
-def firstWord (s : String) : String := (words s).headD "-"
+/-- Tally key of an output line: its first word, cut at the first `=`. -/
+def firstWord (s : String) : String := (((words s).headD "-").splitOn "=").headD "-"
 
 partial def loopModel (M : Machine) (h : IO.FS.Stream) (s : M.σ) (tally : List (String × Nat)) : IO Unit := do
   let line ← h.getLine
